@@ -40,6 +40,9 @@ func c01Oracle(c c01Case) error {
 	if e := ptrConsistency(snap.Goroutines); e != nil {
 		return e
 	}
+	if e := funcFlagsConsistent(snap.Goroutines); e != nil {
+		return e
+	}
 	if !bytes.Equal(prefix.Bytes(), c.S.Pre) {
 		return fmt.Errorf("text before the dump: %s", firstDiffBytes(c.S.Pre, prefix.Bytes()))
 	}
